@@ -108,3 +108,30 @@ def build_fmt_wrapper(scratch):
     if not lls or not sos:
         raise RuntimeError("build produced no .ll / .so: " + p.stderr[-2000:])
     return dict(ll=lls[-1], so=sos[0], dir=d, build_s=time.time() - t0, lib_rs=os.path.join(d, "src/lib.rs"))
+
+
+def build_dbg_wrapper(scratch):
+    """Wrapper for the pretty-printing half of C06: depends on the working-tree derive_more (debug feature)."""
+    import time
+    t0 = time.time()
+    d = os.path.join(scratch, "dbgprobe")
+    os.makedirs(os.path.join(d, "src"))
+    shutil.copy(os.path.join(RUST, "probe_dbg.rs"), os.path.join(d, "src/lib.rs"))
+    open(os.path.join(d, "Cargo.toml"), "w").write(CARGO_TOML % dict(
+        name="dbgprobe", deps='derive_more = { path = "%s", default-features = false, features = ["debug"] }' % common.REPO))
+    lock = os.path.join(common.REPO, "Cargo.lock")
+    if os.path.exists(lock):
+        shutil.copy(lock, os.path.join(d, "Cargo.lock"))
+    os.makedirs(os.path.join(d, ".cargo"))
+    open(os.path.join(d, ".cargo/config.toml"), "w").write("[net]\noffline = true\n")
+    env = dict(os.environ, CARGO_NET_OFFLINE="true", CARGO_TERM_COLOR="never")
+    env.pop("RUSTFLAGS", None)
+    p = subprocess.run(["cargo", "rustc", "--release", "--offline", "--lib", "--", "--emit=llvm-ir", "-C", "no-vectorize-loops",
+                        "-C", "no-vectorize-slp"], cwd=d, env=env, capture_output=True, text=True)
+    if p.returncode != 0:
+        raise RuntimeError(p.stdout + p.stderr)
+    lls = sorted(glob.glob(os.path.join(d, "target/release/deps/dbgprobe*.ll")), key=os.path.getsize)
+    sos = glob.glob(os.path.join(d, "target/release/libdbgprobe.so"))
+    if not lls or not sos:
+        raise RuntimeError("build produced no .ll / .so: " + p.stderr[-2000:])
+    return dict(ll=lls[-1], so=sos[0], dir=d, build_s=time.time() - t0)
